@@ -39,9 +39,9 @@ def TC.init (tempo beats seconds : Option Rat) (now : Rat) : Except String TC :=
     beatsPerBar := 4, barsPerBeat := 1 / 4, baseBarBeat := 0, baseBar := 0 }
 
 /-- clock + the routine that drives it: its logical time `now` and the beat it was last resumed at
-    (`ClockTask._wakeup` / `TempoClock._run` read the beat BEFORE running the routine body and
-    re-schedule at that beat plus the yielded delta, in the clock's then current beat↔second map —
-    so a `beats = v` made by the routine does not move the routine's own next wake-up beat). -/
+    (`ClockTask` / `TempoClock._run` keep the beat a task was scheduled at and re-schedule it at that
+    beat plus the yielded delta, converted with the clock's then current beat↔second map — so a
+    `beats = v` made by the routine does not move the routine's own next wake-up beat). -/
 structure St where
   tc : TC
   now : Rat
@@ -61,7 +61,7 @@ inductive Op where
   | qInvBars (x : Rat)             -- bars2beats(beats2bars(x))
   | qNextBar (x : Option Rat)
   | qNtog (quant phase : Num) (ref : Option Num)
-  | qPlayAt (quant phase : Num)    -- the second at which `clock.play(r, Quant(quant, phase))` wakes `r`
+  | qPlayAt (quant phase : Num)    -- the beat at which `clock.play(r, Quant(quant, phase))` wakes `r`
 
 inductive Res where
   | ok
@@ -79,9 +79,8 @@ def liftSet (st : St) (r : Except (String × TC) TC) : St × Res :=
 def St.beat (st : St) : Rat := beats st.tc st.now
 
 def step (st : St) : Op → St × Res
-  | .wait d =>
-    let t := beats2secs_F st.tc (st.wakeBeat + d)
-    ({ st with now := t, wakeBeat := secs2beats_F st.tc t }, .ok)
+  | .wait d =>       -- `ClockTask._wakeup`: `self.beats = self.beats + delta`, woken at `beats2secs(self.beats)`
+    ({ st with now := beats2secs_F st.tc (st.wakeBeat + d), wakeBeat := st.wakeBeat + d }, .ok)
   | .setTempo v => liftSet st (set_tempo_F st.tc st.now v)
   | .etempo v => liftSet st (etempo_F st.tc st.now v)
   | .setBeats v => liftSet st (set_beats_F st.tc st.now v)
@@ -103,9 +102,9 @@ def step (st : St) : Op → St × Res
   | .qNextBar none => (st, .val (next_bar_N st.tc st.now))
   | .qNtog q p r =>
     (st, match next_time_on_grid_D st.tc st.now q p r with | .ok v => .val v | .error e => .err e)
-  | .qPlayAt q p =>
+  | .qPlayAt q p =>   -- the beat at which the played task is woken (it keeps that beat through later changes)
     (st, match next_time_on_grid_D st.tc st.now q p none with
-         | .ok v => .val (beats2secs_F st.tc v) | .error e => .err e)
+         | .ok v => .val v | .error e => .err e)
 
 /-- a whole history -/
 def run (st : St) : List Op → St × List Res
